@@ -164,6 +164,40 @@ def resultLeafHash (H : Bytes → Bytes) (version rid : Nat) (value : Bytes) : B
 def countLeafHash (H : Bytes → Bytes) (version count : Nat) : Bytes :=
   H ([0, 2] ++ varintNonneg version ++ [13, 0] ++ [82, 101, 113, 117, 101, 115, 116, 67, 111, 117, 110, 116] ++ [32] ++ H (be64 count))
 
+/-! ### IAVL trees (what the node proves from; used by the end-to-end theorem and the driver's shape check) -/
+/-- an IAVL tree as its hashes see it -/
+inductive ITree where
+  | leaf (key value : Bytes) (version : Nat)
+  | inner (height size version : Nat) (l r : ITree)
+
+/-- iavl `node._hash` / `writeHashBytes`: height, size, version as zig-zag varints, then for a leaf the
+    length-prefixed key and the length-prefixed hash of the value, for an inner node the two length-prefixed child hashes
+    (32-byte hashes: length byte 0x20) -/
+def ITree.hash (H : Bytes → Bytes) : ITree → Bytes
+  | .leaf k v ver => H ([0, 2] ++ varintNonneg ver ++ uvarint k.length ++ k ++ [32] ++ H v)
+  | .inner h s v l r => H (varintNonneg h ++ (varintNonneg s ++ (varintNonneg v ++ ([32] ++ l.hash H ++ [32] ++ r.hash H))))
+
+/-- the fields fit their Go types (int8 height, int64 size and version) -/
+def ITree.WF : ITree → Prop
+  | .leaf _ _ ver => ver < 2 ^ 63
+  | .inner h s v l r => h < 256 ∧ s < 2 ^ 63 ∧ v < 2 ^ 63 ∧ l.WF ∧ r.WF
+
+/-- an IAVL inner node as the ICS-23 proof presents it: the node header (height, size, version as zig-zag varints),
+    then 0x20‖left‖0x20‖right with the proven child cut out -/
+def iavlStep (h sz v : Nat) (sib : Bytes) (dataOnRight : Bool) : Step :=
+  if dataOnRight then { pre := varintNonneg h ++ (varintNonneg sz ++ (varintNonneg v ++ ([32] ++ sib ++ [32]))), suf := [] }
+  else { pre := varintNonneg h ++ (varintNonneg sz ++ (varintNonneg v ++ [32])), suf := 32 :: sib }
+
+/-- the existence proof of the leaf reached by `dirs` (true = right child): (the leaf, the inner ops leaf-to-root) -/
+def ITree.walk (H : Bytes → Bytes) : ITree → List Bool → Option (ITree × List Step)
+  | .leaf k v ver, [] => some (.leaf k v ver, [])
+  | .leaf _ _ _, _ :: _ => none
+  | .inner _ _ _ _ _, [] => none
+  | .inner h s v l r, d :: ds =>
+    match (if d then r else l).walk H ds with
+    | some (lf, steps) => some (lf, steps ++ [iavlStep h s v ((if d then l else r).hash H) d])
+    | none => none
+
 /-! ### header -/
 /-- cdcEncode of a byte string (gogotypes.BytesValue / StringValue): empty ↦ empty -/
 def cdcBytes (b : Bytes) : Bytes := if b.isEmpty then [] else 10 :: (uvarint b.length ++ b)
